@@ -159,6 +159,7 @@ type Sim struct {
 	freezeSites map[string]bool
 	freezeProb  float64
 	freezeMax   time.Duration
+	freezeUntil time.Duration // 0 = no limit
 	frozen      int64
 }
 
@@ -220,7 +221,7 @@ func (s *Sim) yield(site, node string) {
 		if i := strings.IndexByte(site, ':'); i >= 0 {
 			base = site[:i]
 		}
-		if s.freezeSites[base] {
+		if s.freezeSites[base] && (s.freezeUntil == 0 || s.Now() < s.freezeUntil) {
 			h := hash64(s.seed, 0xf2ee2e, hashStr(key), uint64(g.k))
 			if float64(h%100000)/100000 < s.freezeProb && s.freezeMax > 0 {
 				g.thaw = s.Now() + 1 + time.Duration((h>>24)%uint64(s.freezeMax))
